@@ -1,7 +1,10 @@
 //! C06 for Multi: a Multi with k listeners, each with its own futures executor (concurrency limit L), under tokio's paused clock. All
 //! events are sent at time 0; listener i takes `dur * (i + 1)` ms per item (listeners consume at different speeds); close() is called at
 //! `tclose` ms with an unbounded timeout.
-//! Records (thread 0): [2 0 80 close_answer close_callbacks] then per listener i [2 0 81 i done_when_close_returned] [2 0 82 i processed_total], [9]
+//! `cancel=j tcancel=ms`: listener j is removed individually with flush_and_cancel_executor() at that time (C12).
+//! Records (thread 0): [2 0 80 close_answer close_callbacks] [2 0 83 accepted 0] then per listener i [2 0 81 i done_when_close_returned]
+//! [2 0 82 i processed_total] [2 0 84 i callbacks_of_i] [2 0 85 i processed_by_i_at_its_callback] [2 0 86 i status_in_callback]
+//! [2 0 87 i finish_not_before_start(1/0)] [2 0 88 i accepted_before_its_removal(-1: not removed)], [9]
 use crate::case::*;
 use reactive_mutiny::prelude::advanced::*;
 use reactive_mutiny::stream_executor::StreamExecutorStats;
@@ -12,7 +15,8 @@ use futures::StreamExt;
 
 const NONE: usize = Instruments::NoInstruments.into();
 
-struct Shared { items: Vec<u64>, done: Vec<AtomicI64>, close_cb: AtomicI64 }
+struct Shared { items: Vec<u64>, done: Vec<AtomicI64>, close_cb: AtomicI64, cb: Vec<AtomicI64>, done_at_cb: Vec<AtomicI64>, status_cb: Vec<AtomicI64>, times_ok: Vec<AtomicI64> }
+fn status_code(s: reactive_mutiny::stream_executor::ExecutorStatus) -> i64 { use reactive_mutiny::stream_executor::ExecutorStatus::*; match s { NotStarted => 0, Running => 1, ScheduledToFinish => 2, ProgrammaticallyEnded => 3, StreamEnded => 4 } }
 
 macro_rules! drive { ($multi:expr, $sh:expr, $case:expr, $derived:ty) => {{
     let multi = $multi; let sh: Arc<Shared> = $sh;
@@ -26,16 +30,32 @@ macro_rules! drive { ($multi:expr, $sh:expr, $case:expr, $derived:ty) => {{
                 drop(item);
                 s.done[i].fetch_add(1, SeqCst);
                 j } }) },
-            move |_ex: Arc<dyn StreamExecutorStats + Send + Sync>| { let s = s3.clone(); async move { s.close_cb.fetch_add(1, SeqCst); } }).await.expect("spawn");
+            move |ex: Arc<dyn StreamExecutorStats + Send + Sync>| { let s = s3.clone(); async move {
+                s.close_cb.fetch_add(1, SeqCst); s.cb[i].fetch_add(1, SeqCst); s.done_at_cb[i].store(s.done[i].load(SeqCst), SeqCst);
+                s.status_cb[i].store(status_code(ex.executor_status().load(SeqCst)), SeqCst);
+                s.times_ok[i].store((ex.execution_finish_delta_nanos() >= ex.execution_start_delta_nanos()) as i64, SeqCst); } }).await.expect("spawn");
     }
     let mut accepted = 0i64;
-    for j in 0..sh.items.len() { if let keen_retry::RetryResult::Ok { .. } = multi.send(j as u32) { accepted += 1; } }
+    // the second half of the events is sent after the individual removal (if any): the removed listener must not get them, the others must
+    let cancel = $case.get("cancel", -1); let tcancel = $case.get("tcancel", 0) as u64; let n = sh.items.len();
+    let first = if cancel >= 0 { (n + 1) / 2 } else { n };
+    for j in 0..first { if let keen_retry::RetryResult::Ok { .. } = multi.send(j as u32) { accepted += 1; } }
+    let mut before_removal = -1i64;
+    if cancel >= 0 {
+        tokio::time::sleep(Duration::from_millis(tcancel)).await;
+        before_removal = accepted;
+        let _ = multi.flush_and_cancel_executor(format!("listener {cancel}"), Duration::ZERO).await;
+        for j in first..n { if let keen_retry::RetryResult::Ok { .. } = multi.send(j as u32) { accepted += 1; } }
+    }
     tokio::time::sleep(Duration::from_millis($case.get("tclose", 0) as u64)).await;
     let closed = multi.close(Duration::ZERO).await;
     let at_close: Vec<i64> = (0..k).map(|i| sh.done[i].load(SeqCst)).collect();
     tokio::time::sleep(Duration::from_millis(1_000_000)).await;
     let mut out = vec![2, 0, 80, closed as i64, sh.close_cb.load(SeqCst), 2, 0, 83, accepted, 0];
-    for i in 0..k { out.extend_from_slice(&[2, 0, 81, i as i64, at_close[i], 2, 0, 82, i as i64, sh.done[i].load(SeqCst)]); }
+    for i in 0..k { out.extend_from_slice(&[2, 0, 81, i as i64, at_close[i], 2, 0, 82, i as i64, sh.done[i].load(SeqCst),
+                                            2, 0, 84, i as i64, sh.cb[i].load(SeqCst), 2, 0, 85, i as i64, sh.done_at_cb[i].load(SeqCst),
+                                            2, 0, 86, i as i64, sh.status_cb[i].load(SeqCst), 2, 0, 87, i as i64, sh.times_ok[i].load(SeqCst),
+                                            2, 0, 88, i as i64, if cancel == i as i64 { before_removal } else { -1 }]); }
     out.push(9);
     out
 }}; }
@@ -46,7 +66,8 @@ pub fn run(case: &Case) -> Vec<i64> {
     let k = case.get("k", 2) as usize;
     let rt = tokio::runtime::Builder::new_current_thread().enable_time().start_paused(true).build().unwrap();
     rt.block_on(async {
-        let sh = Arc::new(Shared { items, done: (0..k).map(|_| AtomicI64::new(0)).collect(), close_cb: AtomicI64::new(0) });
+        let v = |x: i64| -> Vec<AtomicI64> { (0..k).map(|_| AtomicI64::new(x)).collect() };
+        let sh = Arc::new(Shared { items, done: v(0), close_cb: AtomicI64::new(0), cb: v(0), done_at_cb: v(-1), status_cb: v(-1), times_ok: v(-1) });
         match case.gets("chan") {
             "arc_atomic"         => drive!(MultiAtomicArc::<u32, 64, 4, NONE>::new("m"), sh, case, std::sync::Arc<u32>),
             "arc_full_sync"      => drive!(MultiFullSyncArc::<u32, 64, 4, NONE>::new("m"), sh, case, std::sync::Arc<u32>),
